@@ -10,4 +10,4 @@ trap 'rm -rf "$D"' EXIT
 rsync -a --exclude .git /repo/ "$D"/
 if ! (cd "$D" && git init -q . 2>/dev/null && git apply --check "$P" 2>/dev/null); then echo "PATCH DOES NOT APPLY: $P"; exit 2; fi
 (cd "$D" && git apply "$P" && rm -rf .git)
-bin/arcacheck -repo "$D" -verif /verif -property all -no-evidence 2>&1 | grep "VIOLATED\|UNDECIDED" | awk '{print $1, $2, $3}' | sort -u
+${ARCA:-bin/arcacheck} -repo "$D" -verif /verif -property all -no-evidence 2>&1 | grep "VIOLATED\|UNDECIDED" | awk '{print $1, $2, $3}' | sort -u
